@@ -364,3 +364,323 @@ def run_race(case, inject=None, after_complete_grace=True, collect_metrics=False
     res.track = t
     res.cfg = cfg
     return res
+
+
+# =================================================================================================== full race through race control
+class Hang(Exception):
+    """race control's ask() would never return: the simulation went quiescent (or past its horizon) without a reply"""
+
+
+class SimActorSystem:
+    """what racecontrol.race() needs from thespian.actors.ActorSystem, on top of SimRuntime"""
+
+    def __init__(self, rt, loop, clock):
+        self.rt = rt
+        self.loop = loop
+        self.clock = clock
+        self.asks = []  # (t_asked, type of message, t_replied, type of reply)
+        self.tells = []
+
+    def createActor(self, actor_class, targetActorRequirements=None, globalName=None, sourceHash=None):
+        return self.rt.create_actor(actor_class, parent=None, requirements=targetActorRequirements)
+
+    def tell(self, address, msg):
+        self.tells.append((self.clock.now, type(msg).__name__))
+        self.rt.tell(address, msg)
+
+    def ask(self, address, msg, timeout=None):
+        n = len(self.rt.external_inbox)
+        t0 = self.clock.now
+        self.rt.tell(address, msg)
+        self.rt.on_external = lambda m, s: self.loop.stop()
+        try:
+            while len(self.rt.external_inbox) <= n:
+                try:
+                    self.loop.run_forever()
+                except kernel.Quiescent:
+                    raise Hang(f"no reply to {type(msg).__name__}: simulation quiescent at {self.clock.now:.3f}") from None
+                except kernel.HorizonExceeded:
+                    raise Hang(f"no reply to {type(msg).__name__} within the horizon ({self.clock.now:.1f} s)") from None
+        finally:
+            self.rt.on_external = None
+        reply = self.rt.external_inbox[n][1]
+        self.asks.append((t0, type(msg).__name__, self.clock.now, type(reply).__name__))
+        return reply
+
+
+class StoreFault:
+    """makes the driver's metrics store fail: on its n-th record only, or from then on (including flush/close/externalize)"""
+
+    def __init__(self, n, persistent, clock):
+        self.n = n
+        self.persistent = persistent
+        self.clock = clock
+        self.count = 0
+        self.fired_at = None
+        self.tripped = False
+
+    def applies(self):
+        return kernel.current_proc.get().startswith("ActorAddr-DriverActor")
+
+    def on_add(self):
+        if not self.applies():
+            return
+        self.count += 1
+        if self.count == self.n or (self.persistent and self.tripped):
+            self.tripped = True
+            if self.fired_at is None:
+                self.fired_at = self.clock.now
+            raise IOError("sim: metrics store is unavailable")
+
+    def on_other(self):
+        if self.applies() and self.persistent and self.tripped:
+            raise IOError("sim: metrics store is unavailable")
+
+
+def run_full_race(case, fault=None):
+    """
+    the real racecontrol.race(cfg, external=True) -> BenchmarkActor -> MechanicActor (external) + DriverActor -> ...
+    fault: None | {"kind": "runner", "task","client","ordinal","outcome"} | {"kind": "param-source", "task","client","ordinal"}
+           | {"kind": "store", "n", "persistent"} | {"kind": "prep-task", "task_id"} | {"kind": "kill-worker", "index", "at"}
+           | {"kind": "cancel", "at"}
+    """
+    import esrally.mechanic.mechanic as mechanic_module
+    import esrally.racecontrol as racecontrol
+    import esrally.reporter
+    import esrally.version
+    from esrally import exceptions
+
+    clock = kernel.VirtualClock(horizon=horizon_for(case))
+    w = world.World(clock)
+    w.prep_log = []
+    world.install(w)
+    world.register()
+    random.seed(case.get("seed", 0))
+    for _, leaf in leaves(case["schedule"]):
+        w.tasks[leaf["name"]] = {"requests": leaf["requests"], "stride": leaf.get("stride", 7)}
+    schedule = build_schedule(case["schedule"])
+    challenge = track.Challenge("sim-challenge", default=True, schedule=schedule, meta_data={"challenge-tag": 1})
+    t = track.Track("sim-track", challenges=[challenge], meta_data={"track-tag": 1})
+    cfg, load_hosts = race_config(case)
+    A = config.Scope.application
+    cfg.add(A, "race", "pipeline", "benchmark-only")
+    cfg.add(A, "track", "params", {})
+    cfg.add(A, "mechanic", "car.params", {})
+    cfg.add(A, "mechanic", "plugin.params", {})
+    cfg.add(A, "mechanic", "repository.revision", "abc")
+    cfg.add(A, "reporting", "values", "available")
+    cfg.add(A, "reporting", "output.path", None)
+    cfg.add(A, "reporting", "format", "markdown")
+    cfg.add(A, "reporting", "numbers.align", "right")
+
+    loop = kernel.VirtualLoop(clock)
+    asyncio.set_event_loop(loop)
+    delay_cycle = Cycler(case.get("delays"), DELAYS)
+    wake_cycle = Cycler(case.get("wake_late"), WAKE_LATE)
+    prep_cycle = Cycler(list(range(len(case.get("prep_tasks", [])))) or [0], case.get("prep_tasks") or [0.0])
+    offsets = case.get("offsets") or [0.0]
+    res = RaceResult()
+    res.progress = Progress()
+    res.case = case
+    res.fault = fault
+    rt = actors.SimRuntime(loop, clock, delays=lambda *a: delay_cycle.next(), wake_lateness=lambda rec: wake_cycle.next())
+    coordinator_ip = "127.0.0.1" if len(load_hosts) == 1 else load_hosts[0]
+    rt.add_host("coordinator", {"coordinator": True, "ip": coordinator_ip})
+    for ip in load_hosts[1:]:
+        rt.add_host(ip, {"coordinator": False, "ip": ip})
+    workers = []
+
+    def on_actor_created(rec):
+        inst = rec.instance
+        if isinstance(inst, driver.Worker):
+            clock.offsets[rec.proc] = offsets[len(workers) % len(offsets)]
+            workers.append(rec)
+            inst.pool = actors.SimPool(rt, rec.proc)
+        elif isinstance(inst, driver.TaskExecutionActor):
+            inst.pool = actors.SimPool(rt, rec.proc, sync_duration=prep_cycle.next)
+
+    rt.on_actor_created = on_actor_created
+    if case.get("preempt"):
+        pre_cycle = Cycler(case["preempt"], PREEMPT)
+        rt.preempt = lambda what: pre_cycle.next()
+    SimProcessorRegistry.durations = list(case.get("prep_tasks", []))
+    asys = SimActorSystem(rt, loop, clock)
+    res.rt, res.world, res.asys = rt, w, asys
+    res.stored_races = []  # (t, has_results)
+    res.summarize_calls = []
+    res.results_store_calls = []
+    res.fired_at = None
+    res.outcome = None
+    res.error = None
+
+    def store_race(self, race):
+        doc = race.as_dict()
+        res.stored_races.append((clock.now, "results" in doc and bool(doc["results"])))
+
+    class ResultsStore:
+        def store_results(self, race):
+            res.results_store_calls.append(clock.now)
+
+    def summarize(results, c):
+        res.summarize_calls.append(clock.now)
+
+    store_fault = None
+    real_add = metrics.InMemoryMetricsStore._add
+    real_flush = metrics.InMemoryMetricsStore.flush
+    real_ext = metrics.InMemoryMetricsStore.to_externalizable
+    real_close = metrics.MetricsStore.close
+    extra = []
+    if fault and fault["kind"] == "store":
+        store_fault = StoreFault(fault["n"], fault.get("persistent", False), clock)
+
+        def _add(self, doc):
+            store_fault.on_add()
+            return real_add(self, doc)
+
+        def flush(self, refresh=True):
+            store_fault.on_other()
+            return real_flush(self, refresh)
+
+        def to_externalizable(self, clear=False):
+            store_fault.on_other()
+            return real_ext(self, clear)
+
+        extra = [
+            (metrics.InMemoryMetricsStore, "_add", _add),
+            (metrics.InMemoryMetricsStore, "flush", flush),
+            (metrics.InMemoryMetricsStore, "to_externalizable", to_externalizable),
+        ]
+    if fault and fault["kind"] in ("runner", "param-source", "prep-task"):
+        w.faults[fault["kind"]] = dict(fault)
+
+    def noop(*a, **kw):
+        return None
+
+    patches = (
+        kernel.time_patches(clock)
+        + [
+            (driver.client, "EsClientFactory", world.SimEsFactory),
+            (driver.Driver.__init__, "__defaults__", (world.SimEsFactory,)),
+            (driver, "load_local_config", lambda c: c),
+            (driver, "load_track", noop),
+            (driver, "load_track_plugins", noop),
+            (driver, "TrackProcessorRegistry", SimProcessorRegistry),
+            (esrally.track, "load_track_plugins", noop),
+            (esrally.track, "set_absolute_data_path", noop),
+            (esrally.track, "load_track", lambda c, install_dependencies=False: t),
+            (esrally.utils.net, "resolve", lambda h: h),
+            (esrally.log, "post_configure_actor_logging", noop),
+            (esrally.utils.console, "progress", lambda *a, **kw: res.progress),
+            (esrally.utils.console, "info", noop),
+            (esrally.utils.console, "warn", noop),
+            (esrally.utils.console, "println", noop),
+            (esrally.version, "revision", lambda: "sim"),
+            (rally_actor, "bootstrap_actor_system", lambda *a, **kw: asys),
+            (metrics.FileRaceStore, "store_race", store_race),
+            (metrics, "results_store", lambda c: ResultsStore()),
+            (esrally.reporter, "summarize", summarize),
+        ]
+        + extra
+    )
+    _ = mechanic_module
+    with kernel.patched(*patches):
+        try:
+            if fault and fault["kind"] == "kill-worker":
+
+                def kill_victim(victim):
+                    reported = sum(1 for m in rt.send_log if m[3] == "JoinPointReached" and m[1] == victim.proc)
+                    if res.outcome is None and res.fired_at is None and victim.alive and reported < len(case["schedule"]) + 1:
+                        # it still has work to report: its death must fail the race
+                        res.fired_at = clock.now
+                        rt.kill(victim)
+                        return True
+                    return False
+
+                if "after_wakeups" in fault:
+                    # event-based: worker number `index` dies instead of handling its m-th wake-up
+                    wakeups = {}
+
+                    def before_delivery(rec, msg, sender):
+                        if isinstance(rec.instance, driver.Worker) and isinstance(msg, ta.WakeupMessage):
+                            if workers.index(rec) == fault["index"] % len(workers):
+                                wakeups[rec.proc] = wakeups.get(rec.proc, 0) + 1
+                                if wakeups[rec.proc] == fault["after_wakeups"] and kill_victim(rec):
+                                    return "drop"
+                        return None
+
+                    rt.before_delivery = before_delivery
+                else:
+
+                    def kill():
+                        live = [r for r in workers if r.alive]
+                        if live:
+                            kill_victim(live[fault["index"] % len(live)])
+
+                    loop.call_at(fault["at"], actors.ActorEvent(kill))
+            if fault and fault["kind"] == "cancel":
+
+                def interrupt():
+                    if res.outcome is None and res.fired_at is None:
+                        res.fired_at = clock.now
+                        raise KeyboardInterrupt()
+
+                if "on_send" in fault:
+                    # event-based: the user hits Ctrl+C right after the n-th message of the given type has been sent
+                    seen = {"n": 0}
+                    tname, nth = fault["on_send"]
+
+                    def on_send(name):
+                        if name == tname:
+                            seen["n"] += 1
+                            if seen["n"] == nth:
+                                loop.call_soon(actors.ActorEvent(interrupt))
+
+                    rt.on_send = on_send
+                else:
+                    loop.call_at(fault["at"], actors.ActorEvent(interrupt))
+            try:
+                racecontrol.race(cfg, external=True)
+                res.outcome = "returned"
+            except exceptions.UserInterrupted as e:
+                res.outcome = "user-interrupted"
+                res.error = e
+            except exceptions.RallyError as e:
+                res.outcome = "rally-error"
+                res.error = e
+            except Hang as e:
+                res.outcome = "hang"
+                res.error = e
+            except kernel.BlockingCall as e:
+                res.outcome = "blocking"
+                res.error = e
+            res.t_outcome = clock.now
+            # let everything that is still in flight play out (actors exiting, late messages)
+            rt.on_external = None
+            try:
+                loop.run_forever()
+            except (kernel.Quiescent, kernel.HorizonExceeded):
+                pass
+            except kernel.BlockingCall as e:
+                res.late_blocking = str(e)
+        finally:
+            try:
+                for task in asyncio.all_tasks(loop):
+                    task.cancel()
+                try:
+                    loop.run_until_complete(asyncio.sleep(0))
+                except BaseException:  # pylint: disable=broad-except
+                    pass
+            finally:
+                asyncio.set_event_loop(None)
+                loop.close()
+    if store_fault is not None:
+        res.fired_at = store_fault.fired_at
+    for kind in ("runner", "param-source", "prep-task"):
+        if kind in w.faults and "fired_at" in w.faults[kind]:
+            res.fired_at = w.faults[kind]["fired_at"]
+    res.t_end = clock.now
+    res.inbox = rt.external_inbox
+    res.requests = w.request_log
+    res.schedule = schedule
+    res.cfg = cfg
+    return res
